@@ -208,9 +208,20 @@ def search(rec, ctx):
             check(rec, {"src": src + "\n", "stream": "version-check", "py_version": list(v)})
             check(rec, {"src": "a = 1\n\n" + src + "\nb = 2\n", "stream": "version-check", "py_version": list(v), "wrap": ["statements-before"]})
 
+    def trailing_blanks(rnd, body):
+        """blanks at the end of physical lines (not after a continuation backslash): part of the line a report quotes"""
+        out = []
+        for ln in body.split("\n"):
+            if ln and not ln.endswith("\\") and rnd.random() < 0.4:
+                ln += rnd.choice([" ", "  ", "\t", " \t", "\f"])
+            out.append(ln)
+        return "\n".join(out)
+
     def targeted(rnd):
         err = TARGETED[rnd.randrange(len(TARGETED))]
         body, feats = wrap(rnd, err)
+        if rnd.random() < 0.25 and len(body) < 2000:
+            body, feats = trailing_blanks(rnd, body), [*feats, "trailing-blanks"]
         check(rec, {"src": body, "stream": "targeted-wrapped", "wrap": feats, "file": rnd.random() < 0.25})
 
     drive(st.randoms(use_true_random=False), targeted, ctx.budget(6000, 120000), ctx.hseed("targeted"))
